@@ -38,7 +38,8 @@ pub fn raw_cfg(max_medium: usize) -> BoxedStrategy<RawCfg> {
     (gen::bounded_other(max_medium), any::<bool>())
         .prop_flat_map(|((bounded, other, _), flip)| {
             let s = if bounded + other > 300 { gen::shard_size_small() } else { gen::shard_size() };
-            s.prop_map(move |size| RawCfg { bounded, other, flip, size })
+            // keep one round below ~1 MiB of shard data
+            s.prop_map(move |size| RawCfg { bounded, other, flip, size: if (bounded + other) * size > (1 << 20) { 2 + size % 256 / 2 * 2 } else { size } })
         })
         .boxed()
 }
@@ -47,11 +48,14 @@ pub fn raw_cfg(max_medium: usize) -> BoxedStrategy<RawCfg> {
 pub enum Op {
     /// reset to a supported configuration (may switch the default codec's rate)
     Reset(RawCfg),
+    /// reset to exactly the configuration the object already has
+    ResetSame,
     /// reset that must fail: 0 zero originals, 1 zero recovery, 2 both too large, 3 odd size, 4 zero size,
     /// 5 outside this family's envelope, 6 other counts (possibly the other rate) with odd size, 7 other counts with size 0
     ResetBad { variant: u8, cfg: RawCfg },
     /// into_parts -> new(Some(work)) of another family / engine (not available for ReedSolomon*)
-    Recycle { kind: Kind, eng: Eng, cfg: RawCfg },
+    /// `same`: keep the current counts and shard size if the new family supports them
+    Recycle { kind: Kind, eng: Eng, cfg: RawCfg, same: bool },
     /// a complete round: all required adds, then encode/decode; result read (compared) or just dropped
     Round { seed: u64, recv: RecvSpec, read: bool },
     /// some adds of a round, then nothing (abandoned unless more adds follow)
@@ -84,9 +88,9 @@ pub struct OpWeights {
 
 pub fn op(max_medium: usize, w: &OpWeights) -> BoxedStrategy<Op> {
     prop_oneof![
-        w.reset => raw_cfg(max_medium).prop_map(Op::Reset),
+        w.reset => prop_oneof![5 => raw_cfg(max_medium).prop_map(Op::Reset), 1 => Just(Op::ResetSame)],
         w.reset_bad => (0u8..8, raw_cfg(max_medium)).prop_map(|(variant, cfg)| Op::ResetBad { variant, cfg }),
-        w.recycle => (gen::kind_rate(), gen::engine(), raw_cfg(max_medium)).prop_map(|(kind, eng, cfg)| Op::Recycle { kind, eng, cfg }),
+        w.recycle => (gen::kind_rate(), gen::engine(), raw_cfg(max_medium), prop::bool::weighted(0.4)).prop_map(|(kind, eng, cfg, same)| Op::Recycle { kind, eng, cfg, same }),
         w.round => (any::<u64>(), gen::recv_spec(), prop::bool::weighted(0.85)).prop_map(|(seed, recv, read)| Op::Round { seed, recv, read }),
         w.partial => (any::<u64>(), gen::recv_spec(), any::<u16>()).prop_map(|(seed, recv, n_raw)| Op::Partial { seed, recv, n_raw }),
         w.bad_add => (0u8..7, any::<u16>(), any::<u64>()).prop_map(|(variant, raw, seed)| Op::BadAdd { variant, raw, seed }),
@@ -336,6 +340,7 @@ pub fn expand(op: &Op, dec: bool, kind: Kind, cur: Cfg, acc: &Accepted) -> Vec<C
             let c = rc.orient(kind);
             vec![Call::Reset(c.k, c.r, c.b)]
         }
+        Op::ResetSame => vec![Call::Reset(cur.k, cur.r, cur.b)],
         Op::ResetBad { variant, cfg } => vec![bad_reset(*variant, kind, cur, cfg.orient(kind))],
         Op::Recycle { .. } => Vec::new(),
         Op::Round { seed, recv, read } => round_calls(dec, cur, acc, *seed, recv, None, Some(*read)),
@@ -349,9 +354,19 @@ pub fn expand(op: &Op, dec: bool, kind: Kind, cur: Cfg, acc: &Accepted) -> Vec<C
     }
 }
 
+/// configuration a Recycle op leads to
+pub fn recycle_cfg(op_kind: Kind, cfg: &RawCfg, same: bool, cur: Cfg) -> Cfg {
+    if same && op_kind.env(cur.k, cur.r) {
+        cur
+    } else {
+        cfg.orient(op_kind)
+    }
+}
+
 pub fn op_label(op: &Op) -> &'static str {
     match op {
         Op::Reset(_) => "reset",
+        Op::ResetSame => "reset_same",
         Op::ResetBad { .. } => "reset_bad",
         Op::Recycle { .. } => "recycle",
         Op::Round { .. } => "round",
